@@ -1,6 +1,53 @@
 import Generated.Facts
+import Generated.CoreHandleIf
 import Model.ErrorPolicy
-/-! Tie (T) for C05: the words of an error policy are the values of `OnError` in /repo now. -/
+import Proofs.BridgeHandleIf
+import Props.C05
+/-! Tie (T) for C05.
+
+  * `policy_words`: the words of an error policy are the values of `OnError` in /repo now.
+  * `handle_if_source_is_model`: the Lean translation of `ErrorHandler._handle_if` and `ErrorCommsManager.do_i_raise /
+    do_i_print / do_i_stop / do_i_fail`, regenerated from /repo's working tree on every run (Generated/CoreHandleIf.lean),
+    performs the model's effects in the model's order and raises exactly when the model says so.
+  * `c05_policy_source`: hence the per-flag outcome of C05 holds of the translated source itself. -/
 namespace Props.C05Tie
+open Model.Err Proofs.BridgeHandleIf
+
 theorem policy_words : Generated.onError = Model.Err.policyTokens := by decide
+
+theorem handle_if_source_is_model (p : Policy) (o : Override) (e : Nat) (s : ESt) (effs : List Py.Eff) :
+    ∃ done : List Py.Eff,
+      Generated.HandleIf.ErrorHandler._handle_if (envH p o) (.strs (words p)) (.int e) effs =
+        (if (handleOne p o s e).2 then .raised "MatchException" (effs ++ done) else .ok .none (effs ++ done)) ∧
+      done.foldl (applyEff e) s = (handleOne p o s e).1 := by
+  refine ⟨effsOf p o (.int e), ?_, effs_are_handleOne p o e s⟩
+  rw [handle_if_bridge]
+  rfl
+
+/-- Each policy flag decides exactly its own outcome, in the translated source: the exception reaches the caller iff
+    `raise` (or the validation-mode override), the error is collected iff `collect`, `is_valid` drops iff `fail`, the
+    run stops iff `stop`, the message is printed iff `print`. -/
+theorem c05_policy_source (p : Policy) (o : Override) (e : Nat) (s : ESt) (effs : List Py.Eff) :
+    ∃ done : List Py.Eff,
+      Generated.HandleIf.ErrorHandler._handle_if (envH p o) (.strs (words p)) (.int e) effs =
+        (if doRaise p o then .raised "MatchException" (effs ++ done) else .ok .none (effs ++ done)) ∧
+      (done.foldl (applyEff e) s).stopped = (s.stopped || doStop p o) ∧
+      (done.foldl (applyEff e) s).valid = (s.valid && !doFail p o) ∧
+      (done.foldl (applyEff e) s).collected = s.collected ++ (if p.collect then [e] else []) ∧
+      (done.foldl (applyEff e) s).printed = s.printed ++ (if doPrint p o then [e] else []) := by
+  obtain ⟨done, h1, h2⟩ := handle_if_source_is_model p o e s effs
+  obtain ⟨f1, f2, f3, f4, f5⟩ := Props.C05.handleOne_fields p o s e
+  refine ⟨done, ?_, ?_, ?_, ?_, ?_⟩
+  · rw [h1, f1]
+  · rw [h2, f2]
+  · rw [h2, f3]
+  · rw [h2, f4]
+  · rw [h2, f5]
+
+/-- non-vacuity: policy `collect, fail` without override on a running valid csvpath -/
+example : Generated.HandleIf.ErrorHandler._handle_if (envH { collect := true, fail := true } {})
+    (.strs (words { collect := true, fail := true })) (.int 4) [] =
+    .ok .none [{ name := "collect_error", args := [.int 4] }, { name := "set self._csvpath.is_valid", args := [.bool false] }] := by
+  decide
+
 end Props.C05Tie
